@@ -314,7 +314,12 @@ class Evaluator:
         g = self.eval_expr(e.test, st, fr)
         if isinstance(g, Const):
             return self.eval_expr(e.body if g.v else e.orelse, st, fr)
-        return phi(g, self.eval_expr(e.body, st, fr), self.eval_expr(e.orelse, st, fr), e)
+        x, y = self.eval_expr(e.body, st, fr), self.eval_expr(e.orelse, st, fr)
+        while isinstance(g, App) and g.op in ("not", "truth") and len(g.args) == 1:
+            if g.op == "not":
+                x, y = y, x
+            g = g.args[0]
+        return phi(g, x, y, e)
 
     def e_NamedExpr(self, e, st, fr):
         v = self.eval_expr(e.value, st, fr)
@@ -1158,13 +1163,19 @@ class Evaluator:
         g = self.eval_expr(s.test, st, fr)
         if isinstance(g, Const):
             return self.exec_block(s.body if g.v else s.orelse, st, fr)
+        body, orelse = s.body, s.orelse
+        # normal form: `if not c: A else: B` is evaluated as `if c: B else: A` (same terms whichever way the source puts it)
+        while isinstance(g, App) and g.op in ("not", "truth") and len(g.args) == 1:
+            if g.op == "not":
+                body, orelse = orelse, body
+            g = g.args[0]
         base_e = len(st.effects)
         a = st.copy()
         a.conds.append(g)
         b = st.copy()
         b.conds.append(App("not", (g,), s.test))
-        fa, ea = self.exec_block(s.body, a, fr)
-        fb, eb = self.exec_block(s.orelse, b, fr)
+        fa, ea = self.exec_block(body, a, fr)
+        fb, eb = self.exec_block(orelse, b, fr)
         exits = ea + eb
         if fa is None and fb is None:
             return None, exits
